@@ -1,22 +1,22 @@
 SPECIFICATION Spec
 CONSTANTS
-  Overlays = {"A", "B"}
+  Overlays = {"B"}
   PrefixOf <- MCPrefixOf
   Authenticated <- MCAuthenticated
   Keys = {"h1", "att"}
   Honest = {"h1"}
   Attacker = {"att"}
-  MsgIds = {1, 2}
-  Prefixes = {"pA", "pB"}
-  Bodies = {"b0", "b1"}
-  MaxSend = 2
-  MaxMut = 2
-  MaxDeliver = 1
-  WithInject = FALSE
+  MsgIds = {1}
+  Prefixes = {"pB"}
+  Bodies = {"b0"}
+  MaxSend = 1
+  MaxMut = 1
+  MaxDeliver = 2
+  WithInject = TRUE
   CheckSig = TRUE
   CoverAll = TRUE
-  Addrs = {"a1"}
-  MaxAcq = 0
+  Addrs = {"a1", "a2"}
+  MaxAcq = 2
   EarlyBook = FALSE
   TrustSource = FALSE
 INVARIANT TypeOK
